@@ -29,6 +29,16 @@ CHECKS['C16']['engine'] = SYMX
 CHECKS['C19'] = dict(engine=SYMX, technique='bounded symbolic execution of the real __eq__/__ne__/__hash__/Grid.__eq__ (own explorer, z3 decides every branch) against a kind-aware reference equality; replay',
    text='One exhaustive exploration per (law, first operand kind): operand kinds are symbolic selectors over an 18-kind catalogue, numeric payloads symbolic ints (exact rational arithmetic where floats mix in), text/float/unit payloads from boundary catalogues. Laws: no exception (except Quantity unit mismatch), symmetry, ==/!= complementary, kind distinction, reflexivity/copy/deepcopy, hash agreement, transitivity on numeric kinds, singleton identity, Grid == copy and single-position differences give False.',
    note='Trusts the symx explorer and the reference equality in the harness; NaN reflexivity excluded (IEEE); MODE_PINT off; counterexamples replayed on plain CPython.', ref='5 C19')
+TXT = 'bounded symbolic execution of the real writer and reader (AST-instrumented hszinc, symbolic code points, real pyparsing grammar objects interpreted symbolically, z3 decides every branch and the final "exists differing payload" query); replay through the public API'
+CHECKS['C08'] = dict(engine=SYMX, technique=TXT,
+   text='For every text-carrying kind (string, URI, reference display, XStr payload) x position (cell, grid metadata, column metadata, list element, dict value, nested-grid cell) x format x version, the payload is N unconstrained code points (N<=2 quick, <=3 thorough); the real dump and parse run on it and z3 is asked for a payload that changes grid count, row/column shape, a neighbour or the payload itself. unsat on every path = holds for every payload of that length.',
+   note='Trusts the symx engine (shims, symbolic re/pyparsing interpreters, differentially validated) and z3; one symbolic payload per document; JSON text layer assumed an inverse pair in the symbolic run (replay uses real text).', ref='5 C08')
+CHECKS['C01'] = dict(engine=SYMX, technique=TXT + '; concrete boundary catalogue for numeric/temporal kinds',
+   text='ZINC round trip parse(dump(g)) for grids whose payload of one kind at one position is symbolic (text kinds over all code points; ref names, units, XStr type names, Bin mime types over their alphabets), single and two-grid documents, versions 2.0/3.0; equality of version, ordered metadata, columns, rows, kind and content decided by z3 per path. Numbers, dates, times, date-times, coordinates and nested containers come from a concrete boundary catalogue at every position (configurations, not solver-quantified).',
+   note='As C08; numeric/temporal text<->value conversion is CPython/pytz/iso8601 code and is exercised concretely only; known finding bin-zinc-3.0 excluded by region.', ref='5 C01')
+CHECKS['C02'] = dict(engine=SYMX, technique=TXT + '; concrete boundary catalogue for numeric/temporal kinds',
+   text='JSON round trip: same harness family as C01 through jsondumper/jsonparser and the parser glue (dict, list-of-dicts forms symbolically; real JSON text in replay and in the catalogue runs), both Remove spellings via versions 2.0/3.0, six-decimal tolerance for floating payloads.',
+   note='As C01; json.dumps/json.loads assumed an inverse pair on JSON-ready trees in the symbolic run.', ref='5 C02')
 NA_REASON = {}
 
 def main():
